@@ -6,7 +6,7 @@ request : sym <dmax> [<hist>] <entry>,<entry>,…      entry = <hexname>:<K>:<he
                 image is loaded through FromTarball). The property quantifies over images and depths: the
                 answer does NOT depend on the history or the entry point, so the driver only validates the token.
           K: F file, D directory (with a child file "c"), M missing, X file deleted by layer 1,
-             L symlink, Y symlink deleted by layer 1, H tar hard link (TypeLink; the link name is an archive entry name)
+             Z directory (with a child) deleted by layer 1, L symlink, Y symlink deleted by layer 1, H tar hard link (TypeLink; the link name is an archive entry name)
           the image has two layers: layer 0 holds the entries, layer 1 the whiteouts and a file "keep"
 reply   : d<k>=<view0>/<view1> (k = 0..dmax)  s<k>=<view0>/<view1>  cls=<…>
           per name (comma separated)   d: <Stat>.<Open>.<ReadDir>     s: the specification's verdict
@@ -33,7 +33,7 @@ def parseEnt (s : String) : Option Ent :=
   match s.splitOn ":" with
   | [n, k, l] =>
     match strOfHex n, k.toList, (if l = "-" then some "" else strOfHex l) with
-    | some n, [k], some l => if "FDMXLYH".toList.contains k then some ⟨n, k, l⟩ else none
+    | some n, [k], some l => if "FDMXLYHZ".toList.contains k then some ⟨n, k, l⟩ else none
     | _, _, _ => none
   | _ => none
 
@@ -72,6 +72,7 @@ def entNodes (spec : Bool) (view : Nat) (e : Ent) : Option (List (Key × Node Ke
   | 'D' => some [(key, .term .dir), (key ++ ["c"], .term .file)]
   | 'M' => some []
   | 'X' => some [(key, if view = 0 then .term .file else .term .wh)]
+  | 'Z' => if view = 0 then some [(key, .term .dir), (key ++ ["c"], .term .file)] else some [(key, .term .wh)]
   | 'L' => linkNode
   | 'Y' => match linkNode with
            | none => none
@@ -96,6 +97,7 @@ def kidsOf (tbl : List (Key × Node Key)) (g : Graph Key) (n : Key) : List Strin
   let names := tbl.filterMap fun kn =>
     if kn.1.length = n.length + 1 && kn.1.take n.length = n then
       (match g kn.1 with
+       | none => none                      -- pruned from the final view
        | some (.term .wh) => none
        | _ => kn.1.getLast?)
     else none
@@ -123,15 +125,38 @@ def verdictTok (g : Graph Key) : Verdict Key → String
   | .mustOk n => (match g n with | some (.term .dir) => "d" | _ => "f") ++ baseHex n
   | .mustNotExist => "n" | .cycleOrDepth => "e"
 
-def viewToks (tbl : List (Key × Node Key)) (d : Nat) (es : List Ent) : String :=
-  let g := graphOf tbl
-  ",".intercalate (es.map fun e =>
-    let k := e.name.splitOn "/"
-    statTok (stat g d k) ++ "." ++ openTok g (openNode g d k) ++ "." ++ dirTok (readDir g (kidsOf tbl g) d k))
+/-- the observed names: the entries and, last, the root spelled "." -/
+def obsKeys (es : List Ent) : List Key := es.map (fun e => e.name.splitOn "/") ++ [[]]
 
-def specToks (tbl : List (Key × Node Key)) (d : Nat) (es : List Ent) : String :=
+/-- `Layer().FS().Stat(name)` on the chain layer a view is observed on: the layer's OWN entries, symlinks not
+followed. View 0 is observed on layer 0's chain layer (history mode E: on the empty layer after it, whose
+own file system is empty); view 1 on layer 1's (or a trailing empty layer): there every named entry is absent
+or a whiteout. -/
+def layerTok (ownLayer0 : Bool) (m0 : List (Key × Node Key)) (e : Option Ent) : String :=
+  match e with
+  | none => "n"                                    -- the root has no node in a layer's own tree
+  | some e =>
+    if !ownLayer0 then "n" else
+    match e.kind with
+    | 'F' => "f" | 'X' => "f" | 'D' => "d" | 'Z' => "d" | 'M' => "n"
+    | _ => (match graphOf m0 (e.name.splitOn "/") with | some (.link _) => "l" | _ => "n")
+
+def viewToks (g : Graph Key) (tbl : List (Key × Node Key)) (d : Nat) (es : List Ent) (ownLayer0 : Bool)
+    (m0 : List (Key × Node Key)) : String :=
+  let ents : List (Option Ent) := es.map some ++ [none]
+  ",".intercalate (((obsKeys es).zip ents).map fun (k, e) =>
+    statTok (stat g d k) ++ "." ++ openTok g (openNode g d k) ++ "." ++ dirTok (readDir g (kidsOf tbl g) d k)
+      ++ "." ++ layerTok ownLayer0 m0 e)
+
+def specToks (g : Graph Key) (d : Nat) (es : List Ent) : String :=
+  ",".intercalate ((obsKeys es).map fun k => verdictTok g (specWalk g d k))
+
+/-- the graph of the FINAL view: pruned when the requirer wants only the link entries (flag q) -/
+def finalGraph (q : Bool) (tbl : List (Key × Node Key)) (es : List Ent) (d : Nat) : Graph Key :=
   let g := graphOf tbl
-  ",".intercalate (es.map fun e => verdictTok g (specWalk g d (e.name.splitOn "/")))
+  if !q then g else
+  let req : Key → Bool := fun k => es.any fun e => (e.kind = 'L' || e.kind = 'Y' || e.kind = 'H') && e.name.splitOn "/" = k
+  pruned g (tbl.map (·.1)) req d
 
 def classify (es : List Ent) (m0 s0 : List (Key × Node Key)) : String :=
   let nl := (es.filter fun e => e.kind = 'L' || e.kind = 'Y' || e.kind = 'H').length
@@ -139,26 +164,38 @@ def classify (es : List Ent) (m0 s0 : List (Key × Node Key)) : String :=
   s!"n{es.length}l{nl}{if differs then "u" else ""}"
 
 def handle (line : String) : String :=
+  let okHist (h : String) : Bool :=
+    match h.toList with
+    | m :: fl => "HENSGXC".toList.contains m && fl.all (fun c => c = 't' || c = 'r' || c = 'q')
+    | [] => false
   let toks := match line.splitOn " " with
-    | ["sym", dmax, ents] => some (dmax, ents)
-    | ["sym", dmax, hist, ents] =>
-      (match hist.toList with
-       | [m] => if "HENSGX".toList.contains m then some (dmax, ents) else none
-       | [m, 't'] => if "HENSGX".toList.contains m then some (dmax, ents) else none
-       | _ => none)
+    | ["sym", dmax, ents] => some (dmax, "H", ents)
+    | ["sym", dmax, hist, ents] => if okHist hist then some (dmax, hist, ents) else none
     | _ => none
   match toks with
-  | some (dmax, ents) =>
+  | some (dmax, hist, ents) =>
     match dmax.toNat?, (listOf ents ",").mapM parseEnt with
     | some dmax, some es =>
       if es.any (fun e => !canonical (e.name.splitOn "/")) then "bad-op" else
       match buildView false 0 es, buildView false 1 es, buildView true 0 es, buildView true 1 es with
       | some m0, some m1, some s0, some s1 =>
-        let ds := (List.range (dmax+1)).map fun d => s!"d{d}={viewToks m0 d es}/{viewToks m1 d es}"
-        let ss := (List.range (dmax+1)).map fun d => s!"s{d}={specToks s0 d es}/{specToks s1 d es}"
-        " ".intercalate (ds ++ ss ++ ["cls=" ++ classify es m0 s0])
+        let modeE := hist.toList.head? = some 'E'
+        let q := hist.toList.contains 'q'
+        let ds := (List.range (dmax+1)).map fun d =>
+          s!"d{d}={viewToks (graphOf m0) m0 d es (!modeE) m0}/{viewToks (finalGraph q m1 es d) m1 d es false m0}"
+        let ss := (List.range (dmax+1)).map fun d =>
+          s!"s{d}={specToks (graphOf s0) d es}/{specToks (finalGraph q s1 es d) d es}"
+        let ix := ".".intercalate ((List.range (if modeE then 5 else 2)).map toString)
+        " ".intercalate (["ix=" ++ ix] ++ ds ++ ss ++ ["cls=" ++ classify es m0 s0])
       | _, _, _, _ => "loaderr"
     | _, _ => "bad-op"
   | _ => "bad-op"
 
-def main : IO Unit := serve handle
+/-- the `probe` case: what the entry points must do with unusable inputs. cfg: the three invalid configurations are
+refused as invalid (i), the valid one loads (o) — `validConfig`; a missing tarball, an unreadable layer list and
+unreadable layer contents are errors (e); the empty image loads and has no chain layer. -/
+def handleProbe : String :=
+  let c (b : Int) (r : Bool) (d : Int) : String := if validConfig b r d then "o" else "i"
+  s!"cfg={c 1048576 true (-1)}{c 0 true 0}{c 1048576 false 0}{c 1048576 true 0} tb=e ly=e un=e empty=o0"
+
+def main : IO Unit := serve fun l => if l = "probe" then handleProbe else handle l
